@@ -787,6 +787,38 @@ def rule_metadata_from_the_given_type(repo: Repo, rep, rule: str = "R14.11") -> 
         rep.ok(rule, sub2, f"{n_loops} loop(s) over the members: none replaces a member by its own type arguments", fn.loc())
 
 
+    # (c) the entry point hands the type on as it received it: a response whose body *is* the union arrives as the Annotated alias, and the
+    # discriminator lives in that alias' metadata only - "normalising" the parameter (`cls = <unwrap>(cls)`) before `converter.structure` drops it
+    sfd = conv.functions.get("structure_from_dict")
+    if sfd is None:
+        raise AnalysisError(f"{rule}: anchor vanished: structure_from_dict")
+    if len(sfd.params) < 2:
+        raise AnalysisError(f"{rule}: structure_from_dict(data, cls) signature changed (anchor)")
+    p_cls = sfd.params[1]
+    scalls = [c for c in calls_in(sfd.node) if isinstance(c.func, ast.Attribute) and c.func.attr == "structure" and len(c.args) >= 2]
+    if not scalls:
+        raise AnalysisError(f"{rule}: structure_from_dict no longer calls <converter>.structure(data, <type>) (anchor)")
+    sub3 = f"{conv.relpath}:structure_from_dict structures into the type as given"
+    SL = Locals(sfd.node)
+    bad3 = None
+    for c in scalls:
+        a1 = c.args[1]
+        if not (isinstance(a1, ast.Name) and SL.root(a1.id) == p_cls):
+            bad3 = bad3 or (c, f"`{norm(a1)[:40]}` is not the type parameter `{p_cls}`")
+            continue
+        stores = [st for st in own_nodes(sfd.node) if isinstance(st, (ast.Assign, ast.AnnAssign, ast.AugAssign)) and getattr(st, "lineno", 0) < c.lineno and any(
+            isinstance(t, ast.Name) and t.id in (a1.id, p_cls) for t in (st.targets if isinstance(st, ast.Assign) else [st.target]))]
+        stores = [st for st in stores if not (isinstance(st, (ast.Assign, ast.AnnAssign)) and isinstance(st.value, ast.Name) and st.value.id == p_cls)]
+        if stores:
+            bad3 = bad3 or (c, f"`{p_cls}` is re-bound before it is structured (`{norm(stores[0])[:60]}`)")
+    if bad3:
+        rep.violation(rule, sub3, f"{sfd.fq}|entry-point-rebinds-type",
+                      f"{bad3[1]}: a response body that is itself a discriminated union is passed as `Annotated[Union[...], Disc()]`; with the metadata stripped the union hook "
+                      "finds no discriminator and decodes by first-success - keys of the real variant are dropped, an undecodable mapped payload is accepted as another variant", sfd.loc(bad3[0]))
+    else:
+        rep.ok(rule, sub3, f"`converter.structure(data, {p_cls})` - the parameter is never re-bound", sfd.loc(scalls[0]))
+
+
 # ------------------------------------------------------------------------------------------------ R14.14 a discriminator without mapping is still a discriminator
 def rule_implicit_mapping(repo: Repo, rep, rule: str = "R14.14") -> None:
     """`discriminator: {propertyName: petType}` without `mapping` is the common spelling; OpenAPI defines its mapping implicitly (the value is
